@@ -12,7 +12,7 @@
 //!
 //! `Src` unifies it with `nv::adversary::ScriptedReader` (the literal script language of the model).
 
-use std::io::{self, Read};
+use std::io::{self, Read, Seek, SeekFrom};
 use std::sync::Arc;
 
 use nv::adversary::{Deliver, ScriptedReader};
@@ -49,6 +49,22 @@ impl Read for CutReader {
         buf[..n].copy_from_slice(&self.data[self.pos..self.pos + n]);
         self.pos += n;
         Ok(n)
+    }
+}
+
+impl Seek for CutReader {
+    fn seek(&mut self, pos: SeekFrom) -> io::Result<u64> {
+        let new = match pos {
+            SeekFrom::Start(n) => n as i128,
+            SeekFrom::End(d) => self.data.len() as i128 + d as i128,
+            SeekFrom::Current(d) => self.pos as i128 + d as i128,
+        };
+        if new < 0 {
+            return Err(io::Error::from(io::ErrorKind::InvalidInput));
+        }
+        self.pos = (new as usize).min(self.data.len());
+        self.last_fired = None;
+        Ok(new as u64)
     }
 }
 
@@ -113,6 +129,15 @@ impl Read for Src {
         match self {
             Src::Cut(r) => r.read(buf),
             Src::Script(r) => r.read(buf),
+        }
+    }
+}
+
+impl Seek for Src {
+    fn seek(&mut self, pos: SeekFrom) -> io::Result<u64> {
+        match self {
+            Src::Cut(r) => r.seek(pos),
+            Src::Script(r) => r.seek(pos),
         }
     }
 }
